@@ -166,6 +166,19 @@ var props = []PropSpec{
 				Bounds: "histories of 3 (quick) / 4 (thorough) events from {record from source node, record from destination node, expiry scan after all deadlines} on one flow; flow type, egress and ingress rule action symbolic over all 256 values each"},
 		},
 	},
+	{
+		ID: "C10", Pkg: "./c10", ReplayPkg: "./cmd/rc10", Level: "model_checking",
+		Assumptions: append([]string{
+			"the clock is the harness's implementation of the collector's clock interface (hook VerifClock), interpreted like any other code; it models the documented time.AfterFunc semantics explicitly: armed / fired-with-callback-pending / idle, Stop and Reset return values, a pending callback survives Reset; Now() inside a callback returns any instant between the firing and the current time (over-approximates the unlocked clock read at the top of the callback)",
+			"callbacks and message handling are atomic with respect to each other (each holds the collector mutex for its whole body); true parallelism is not explored",
+			"time is a 64-bit symbolic offset; every 'advance' is an arbitrary non-negative duration up to 100 s, TTL = 30 s",
+		}, codecAssumptions...),
+		Harnesses: []HarnessSpec{
+			{Func: "Check_Schedule", Reach: []string{"refresh", "data-accepted", "data-rejected", "fired", "expired", "used-after-ttl-before-timer-ran", "callback-found-refreshed-template", "done"},
+				Tune: func(c *sym.Config, th bool) { c.ClockMode = "frozen" },
+				Bounds: "all schedules of depth 5 (quick) / 6 (thorough) over {template/refresh, bad template, data, advance by symbolic d, fire a due armed timer, run a pending callback} on 2 keys (two template ids of one observation domain); all timing relations are the solver's"},
+		},
+	},
 }
 
 var _ = sym.Config{}
